@@ -306,11 +306,14 @@ def run_local(plan, s, res, tr):
                 hook()          # something else happens while the request is in progress
             return self._v
 
-    seq = s.PacketSequencer(ProbeStart(0))
+    seq = s.PacketSequencer(start=ProbeStart(0))
     n, start = 0, 0
     for i, op in enumerate(plan.get("local", [])):
         if op[0] == "set":
-            seq.set_sequence_start(ProbeStart(op[1]))
+            if i % 4 == 1:
+                seq.set_sequence_start(start=ProbeStart(op[1]))
+            else:
+                seq.set_sequence_start(ProbeStart(op[1]))
             start = op[1]
             tr.ev("local", "set", op[1])
         elif op[0] in ("next", "next_in_thread"):
